@@ -638,6 +638,21 @@ func (g *gen) metaCall(s int, proc string, args Val, kw Val) {
 	if kw.T == 0 {
 		kw = Val{T: 'd'}
 	}
+	// the argument checks of the meta procedures: no arguments at all, too
+	// few, junk in front
+	switch {
+	case g.chance(0.05):
+		args = Val{T: 'l'}
+		g.tag("meta-args-missing")
+	case g.chance(0.04) && len(args.L) > 0:
+		args = Val{T: 'l', L: args.L[:len(args.L)-1]}
+		g.tag("meta-args-missing")
+	case g.chance(0.04) && len(args.L) > 0:
+		l := append([]Val{}, args.L...)
+		l[g.r.IntN(len(l))] = g.junk()
+		args = Val{T: 'l', L: l}
+		g.tag("meta-args-junk")
+	}
 	req := g.nextReq(s)
 	g.msg(s, &Msg{Kind: "call", Req: req, URI: proc, Args: args, Kw: kw})
 }
@@ -968,6 +983,7 @@ func Generate(profile string, seed uint64, idx int, maxOps, maxSess int) *Scenar
 		base, authz = "mixed", true
 	case "realms":
 		base, realms = "mixed", 2+r.IntN(2)
+		authz = r.IntN(4) == 0 // realms sharing one Authorizer configuration
 	}
 	g := &gen{r: r, profile: base, sc: &Scenario{Name: fmt.Sprintf("%s-%d-%d", profile, seed, idx)}, realm: map[int]int{},
 		feats: map[int]map[string]bool{}, local: map[int]bool{}, req: map[int]int64{}, callees: map[int]bool{}, tags: map[string]bool{}, maxSess: maxSess, removed: map[int]bool{}}
@@ -1026,6 +1042,10 @@ func Generate(profile string, seed uint64, idx int, maxOps, maxSess int) *Scenar
 	}
 	for i := 0; i < realms; i++ {
 		g.sc.Realms = append(g.sc.Realms, cfg)
+	}
+	if realms > 1 && g.chance(0.35) {
+		g.sc.Template = true
+		g.tag("realm-template")
 	}
 	// the property's own observation point: a catch-all observer in each realm
 	for i := 0; i < realms; i++ {
@@ -1100,7 +1120,7 @@ func Generate(profile string, seed uint64, idx int, maxOps, maxSess int) *Scenar
 				g.tag("add-existing-realm")
 			}
 		}
-		if realms > 1 && g.chance(0.015) {
+		if realms > 1 && !g.sc.Template && g.chance(0.015) {
 			// remove a realm (never realm 0), later traffic to it is refused;
 			// possibly add it again, empty
 			victim := 1 + g.r.IntN(realms-1)
